@@ -64,9 +64,10 @@ M5 = [
 M6 = [
     'directive @tag(n: Int = 3, s: String = "x", o: Inp = {x: 1}, l: [Int!]) on FIELD_DEFINITION | OBJECT | FIELD | ENUM_VALUE | ARGUMENT_DEFINITION | INPUT_FIELD_DEFINITION | QUERY | MUTATION | SUBSCRIPTION | FRAGMENT_DEFINITION | FRAGMENT_SPREAD | INLINE_FRAGMENT | SCHEMA | SCALAR | INTERFACE | UNION | ENUM | INPUT_OBJECT',
     '"""a doc"""\ndirective @plain on FIELD',
+    "directive @plain2 on FIELD_DEFINITION | ENUM_VALUE",
     "input Inp { x: Int }",
-    'enum Color { RED @deprecated(reason: "no red") GREEN @deprecated BLUE CYAN @deprecated(reason: "") PINK @deprecated(reason: null) }',
-    'type Query { old: Int @deprecated(reason: "use new") older: Int @deprecated blank: Int @deprecated(reason: "") nulled: Int @deprecated(reason: null) new: Int hidden: Int @nonIntrospectable col: Color t(a: Int @tag): Int @tag(n: 1) }',
+    'enum Color { RED @deprecated(reason: "no red") GREEN @deprecated BLUE CYAN @deprecated(reason: "") PINK @deprecated(reason: null) TEAL @deprecated(reason: "t") @plain2 }',
+    'type Query { old: Int @deprecated(reason: "use new") older: Int @deprecated blank: Int @deprecated(reason: "") nulled: Int @deprecated(reason: null) old2: Int @deprecated(reason: "r2") @tag hid2: Int @nonIntrospectable @tag hid3: Int @nonIntrospectable @deprecated old3: Int @tag(n: 2) @deprecated @plain2 new: Int hidden: Int @nonIntrospectable col: Color t(a: Int @tag): Int @tag(n: 1) }',
 ]
 M7 = [
     "type Blob implements Shape { area: Float }",
@@ -106,7 +107,7 @@ M9 = [
     "extend schema { mutation: M }",
     "extend type _T implements _I { _i: Int }",
 ]
-M6S = ["schema @nonIntrospectable { query: Query }", "type Query { a: Int b: Int @deprecated }"]
+M6S = ["directive @sx on SCHEMA", "schema @nonIntrospectable @sx { query: Query }", "type Query { a: Int b: Int @deprecated }"]      # a second schema directive WITHOUT any hook, written after
 def _orders(chunks):
     """declaration order must not matter: original, reversed, rotated (extensions kept after everything else when reversed)"""
     base = [c for c in chunks if not c.startswith("extend")]; ext = [c for c in chunks if c.startswith("extend")]
